@@ -24,7 +24,7 @@ def discharge(pc, claim, want_cvc5_recheck=False):
     for f in pc:
         s.add(f)
     s.add(z3.Not(claim) if not isinstance(claim, bool) else z3.BoolVal(not claim))
-    r = s.check()
+    r = _check(s)
     out = {"backend": "z3", "model": None, "solver_output": str(r)}
     if r == z3.unsat:
         out["status"] = "proved"
@@ -47,7 +47,7 @@ def discharge(pc, claim, want_cvc5_recheck=False):
         for f in pc:
             s2.add(f)
         s2.add(z3.Not(claim) if not isinstance(claim, bool) else z3.BoolVal(not claim))
-        r = s2.check()
+        r = _check(s2)
         if r == z3.unsat:
             out["status"] = "proved"
             out["backend"] = "z3(seed7)"
@@ -69,6 +69,21 @@ def discharge(pc, claim, want_cvc5_recheck=False):
                 out["status"] = "unknown"
     out["time_s"] = time.time() - t0
     return out
+
+
+def _check(s):
+    """s.check() with a watchdog: z3's sequence solver sometimes honours neither rlimit nor its own timeout; after the wall
+    safety net has passed the query is interrupted from a timer thread and counts as `unknown`."""
+    import threading
+    t = threading.Timer(Z3_TIMEOUT_MS / 1000.0 + 3.0, s.ctx.interrupt)
+    t.daemon = True
+    t.start()
+    try:
+        return s.check()
+    except z3.Z3Exception:
+        return z3.unknown
+    finally:
+        t.cancel()
 
 
 def run_cvc5(solver):
